@@ -19,7 +19,7 @@ ASSUMPTIONS = ["'runs without an internal error' is decided by running lcm on ge
 
 # signatures of the crashes of accepted specifications that are recorded as known findings
 KNOWN = {
-    "agent_without_admissible_restricted_choice": ["Incompatible shapes for broadcasting", "vmap got inconsistent sizes for array axes",
+    "agent_without_admissible_restricted_choice": ["ncompatible shapes for broadcasting", "vmap got inconsistent sizes for array axes",
                                                    "integer modulo by zero", "does not match length of index"],
     "target_without_model_variable": ["vmap must have at least one non-None value in in_axes"],
     "constant_transition": ["rank should be at least 1, but is only 0", "len() of unsized object"],
@@ -119,14 +119,15 @@ def fam_creation(rng, n):
                  "continuous state, a stochastic transition depending on a continuous variable, a filter with a "
                  "parameter — with and without another (valid) stochastic discrete state; get_lcm_function must "
                  "raise ValueError exactly for these; all non-trivial")
-    cases = e2e.gen_cases(rng, n, fn="creation_checks", features=[set(), {"stochastic"}, {"filter"}, {"filter", "stochastic"}])
+    cases = e2e.gen_cases(rng, n // 2, fn="creation_checks", features=[set(), {"stochastic"}, {"filter"}, {"filter", "stochastic"}])
+    cases += e2e.gen_cases(rng, n - n // 2, fn="creation_checks", features=[set(), {"filter"}], allow_stochastic=False)
     wcs = []
-    for c in cases:
+    for ci, c in enumerate(cases):
         m = copy.deepcopy(c["_mspec"])
         conts = [s for s, g in m["states"] if G.is_cont(g)]
         disc = [s for s, g in m["states"] if not G.is_cont(g)]
         contvars = [v for v, g in m["states"] + m["choices"] if G.is_cont(g)]
-        kind = rng.choice(["none", "stoch_on_cont", "dep_on_cont", "filter_param"])
+        kind = ["stoch_on_cont", "none", "dep_on_cont", "filter_param", "stoch_on_cont"][ci % 5]
         done = "none"
         if kind == "stoch_on_cont" and conts and disc:
             for f in m["functions"]:
@@ -215,10 +216,21 @@ def fam_import(rng):
     return fam
 
 
+def fam_grids(rng, n):
+    """an invalid grid is one of C12's rules: reuse C16's grid family (accept/reject only)"""
+    from props import C16
+    fam = C16.fam_continuous(rng, n)
+    fam.name = "grid_validation"
+    # the C16 known finding (huge int bounds) is not a C12 matter: keep only accept/reject mistakes
+    fam.violations = [v for v in fam.violations if "contrary to the specification" in v.get("what", "")
+                      or "instead of GridInitializationError" in v.get("what", "") and not C16._is_huge_int_case(v)]
+    return fam
+
+
 def run(tier, seed):
     rng = random.Random(seed * 7919 + 12)
     k = 1 if tier == "quick" else 15
-    return [fam_validation(rng, 300 * k), fam_creation(rng, 16 * k), fam_run(rng, 16 * k), fam_import(rng)]
+    return [fam_grids(rng, 150 * k), fam_validation(rng, 300 * k), fam_creation(rng, 30 * k), fam_run(rng, 16 * k), fam_import(rng)]
 
 
 def matches_signature(entry, item):
